@@ -606,10 +606,10 @@ Local Open Scope nat_scope.
 (** * The tree builder on the token lists the plain formats emit *)
 Section Go.
 Context (toks : list tok).
-Notation go := (Eval.go op_priority toks).
+Notation go := (Eval.go_p EvalTables.paren_juxt_any_priority EvalTables.pow_exempt_any_priority op_priority toks).
 
 Lemma go_S f i d p r :
-  go (S f) i d p r = ltac:(let t := eval cbn [Eval.go] in (Eval.go op_priority toks (S f) i d p r) in exact t).
+  go (S f) i d p r = ltac:(let t := eval cbn [Eval.go_p] in (Eval.go_p EvalTables.paren_juxt_any_priority EvalTables.pow_exempt_any_priority op_priority toks (S f) i d p r) in exact t).
 Proof. reflexivity. Qed.
 
 Lemma bound_ok j t : nth_error toks j = Some t → Nat.leb (ntoks toks) j = false.
@@ -624,9 +624,9 @@ Lemma go_num_after_pow f i d e t' :
   nth_error toks i = Some (TNum e) → nth_error toks (i + 1) = Some t' → stop t' →
   go (S (S f)) i d "**" None = Ok (Leaf (TNum e), ret i t').
 Proof.
-  intros H0 H1 Ht. rewrite go_S. unfold tok_at. rewrite H0. cbn -[Eval.go Nat.leb].
+  intros H0 H1 Ht. rewrite go_S. unfold tok_at. rewrite H0. cbn -[Eval.go_p Nat.leb].
   rewrite (bound_ok _ _ H1). rewrite go_S. unfold tok_at. rewrite H1.
-  destruct Ht as [-> | [-> | ->]]; cbn -[Eval.go Nat.leb].
+  destruct Ht as [-> | [-> | ->]]; cbn -[Eval.go_p Nat.leb].
   - replace (Init.Nat.pred (i + 1)) with i by lia. reflexivity.
   - replace (Init.Nat.pred (i + 1)) with i by lia. reflexivity.
   - reflexivity.
@@ -637,9 +637,9 @@ Lemma go_name_operand f i d o a t' :
   mulop o → nth_error toks i = Some (TName a) → nth_error toks (i + 1) = Some t' → stop t' →
   go (S (S f)) i d o None = Ok (Leaf (TName a), ret i t').
 Proof.
-  intros Ho H0 H1 Ht. rewrite go_S. unfold tok_at. rewrite H0. cbn -[Eval.go Nat.leb].
+  intros Ho H0 H1 Ht. rewrite go_S. unfold tok_at. rewrite H0. cbn -[Eval.go_p Nat.leb].
   rewrite (bound_ok _ _ H1). rewrite go_S. unfold tok_at. rewrite H1.
-  destruct Ho as [-> | ->]; destruct Ht as [-> | [-> | ->]]; cbn -[Eval.go Nat.leb];
+  destruct Ho as [-> | ->]; destruct Ht as [-> | [-> | ->]]; cbn -[Eval.go_p Nat.leb];
     try (replace (Init.Nat.pred (i + 1)) with i by lia; reflexivity); try rewrite H1; reflexivity.
 Qed.
 
@@ -649,15 +649,15 @@ Lemma go_pow_operand f i d o a e t' :
   nth_error toks (i + 2) = Some (TNum e) → nth_error toks (i + 3) = Some t' → stop t' →
   go (S (S (S (S (S f))))) i d o None = Ok (Bin "**" (Leaf (TName a)) (Leaf (TNum e)), ret (i + 2) t').
 Proof.
-  intros Ho H0 H1 H2 H3 Ht. rewrite go_S. unfold tok_at. rewrite H0. cbn -[Eval.go Nat.leb].
+  intros Ho H0 H1 H2 H3 Ht. rewrite go_S. unfold tok_at. rewrite H0. cbn -[Eval.go_p Nat.leb].
   rewrite (bound_ok _ _ H1). rewrite go_S. unfold tok_at. rewrite H1.
   replace (i + 1 + 1) with (i + 2) by lia.
   assert (P : go (S (S (S f))) (i + 2) (d + 1) "**" None = Ok (Leaf (TNum e), ret (i + 2) t')).
   { apply go_num_after_pow; [exact H2 | replace (i + 2 + 1) with (i + 3) by lia; exact H3 | exact Ht]. }
-  destruct Ho as [-> | ->]; cbn -[Eval.go Nat.leb]; rewrite P;
-    destruct Ht as [-> | [-> | ->]]; unfold ret; cbn -[Eval.go Nat.leb];
+  destruct Ho as [-> | ->]; cbn -[Eval.go_p Nat.leb]; rewrite P;
+    destruct Ht as [-> | [-> | ->]]; unfold ret; cbn -[Eval.go_p Nat.leb];
     try (rewrite H2; replace (i + 2 + 1) with (i + 3) by lia; rewrite (bound_ok _ _ H3);
-         rewrite go_S; unfold tok_at; rewrite H3; cbn -[Eval.go Nat.leb];
+         rewrite go_S; unfold tok_at; rewrite H3; cbn -[Eval.go_p Nat.leb];
          replace (Init.Nat.pred (i + 3)) with (i + 2) by lia; reflexivity);
     replace (i + 2 + 1) with (i + 3) by lia; try rewrite H3; reflexivity.
 Qed.
@@ -699,7 +699,7 @@ Proof.
   induction ps as [|[o t] ps IH]; intros i acc f Hok Hh Hf.
   - simpl in Hh. apply holds_cons in Hh as [H0 _].
     destruct f as [|f]; [simpl in Hf; lia|]. rewrite go_S. unfold tok_at. rewrite H0.
-    cbn -[Eval.go Nat.leb]. rewrite Nat.add_0_r. reflexivity.
+    cbn -[Eval.go_p Nat.leb]. rewrite Nat.add_0_r. reflexivity.
   - apply Forall_cons in Hok as [[Ho Ht] Hok]. simpl in Ho, Ht.
     assert (Hnext : ∃ t', stop t' ∧ ∃ rest, (pairs_toks ps ++ [TEnd])%list = t' :: rest).
     { destruct ps as [|[o' t2] ps'].
@@ -737,7 +737,7 @@ Proof.
         + replace (i + 1 + 2) with (i + 3) by lia. exact H3. }
     destruct Hop as [tl [Hl [Hne [Hn [Hrest Hcall]]]]].
     rewrite go_S. unfold tok_at. rewrite H0.
-    destruct Ho as [-> | ->]; cbn -[Eval.go Nat.leb]; rewrite Hcall.
+    destruct Ho as [-> | ->]; cbn -[Eval.go_p Nat.leb]; rewrite Hcall.
     all: destruct Hstop as [-> | [-> | ->]]; unfold ret.
     all: try (rewrite Hl; destruct tl; try congruence; rewrite (bound_ok _ _ Hn);
               rewrite (IH (i + length (op_toks t) + 1) _ f Hok
@@ -779,17 +779,17 @@ Proof.
   destruct first as [s|a|a e]; simpl op_toks in *; simpl app in Hh; simpl length.
   - apply holds_cons in Hh as [H0 Hh]. pose proof Hh as Hh'. rewrite Erest in Hh'. apply holds_cons in Hh' as [H1 _].
     change (0 + 1) with 1 in *.
-    rewrite go_S. unfold tok_at. rewrite H0. cbn -[Eval.go Nat.leb]. rewrite (bound_ok _ _ H1).
+    rewrite go_S. unfold tok_at. rewrite H0. cbn -[Eval.go_p Nat.leb]. rewrite (bound_ok _ _ H1).
     rewrite (go_loop ps 1 _ f Hok Hh ltac:(lia)). reflexivity.
   - apply holds_cons in Hh as [H0 Hh]. pose proof Hh as Hh'. rewrite Erest in Hh'. apply holds_cons in Hh' as [H1 _].
     change (0 + 1) with 1 in *.
-    rewrite go_S. unfold tok_at. rewrite H0. cbn -[Eval.go Nat.leb]. rewrite (bound_ok _ _ H1).
+    rewrite go_S. unfold tok_at. rewrite H0. cbn -[Eval.go_p Nat.leb]. rewrite (bound_ok _ _ H1).
     rewrite (go_loop ps 1 _ f Hok Hh ltac:(lia)). reflexivity.
   - apply holds_cons in Hh as [H0 Hh]. apply holds_cons in Hh as [H1 Hh]. apply holds_cons in Hh as [H2 Hh].
     pose proof Hh as Hh'. rewrite Erest in Hh'. apply holds_cons in Hh' as [H3 _].
     change (0 + 1 + 1 + 1) with 3 in *. change (0 + 1 + 1) with 2 in *. change (0 + 1) with 1 in *.
-    rewrite go_S. unfold tok_at. rewrite H0. cbn -[Eval.go Nat.leb]. rewrite (bound_ok _ _ H1).
-    destruct f as [|f]; [lia|]. rewrite go_S. unfold tok_at. rewrite H1. cbn -[Eval.go Nat.leb].
+    rewrite go_S. unfold tok_at. rewrite H0. cbn -[Eval.go_p Nat.leb]. rewrite (bound_ok _ _ H1).
+    destruct f as [|f]; [lia|]. rewrite go_S. unfold tok_at. rewrite H1. cbn -[Eval.go_p Nat.leb].
     replace f with (S (S (f - 2))) at 1 by lia.
     rewrite (go_num_after_pow (f - 2) 2 1 e t' H2 H3 Hstop).
     destruct Hstop as [-> | [-> | ->]]; unfold ret.
@@ -804,7 +804,7 @@ Lemma build_plain first ps toks :
   toks = (op_toks first ++ pairs_toks ps ++ [TEnd])%list → Forall mul_pair ps →
   build op_priority toks = Ok (pairs_tree ps (op_tree first)).
 Proof.
-  intros Et Hok. unfold build.
+  intros Et Hok. unfold build, build_p.
   rewrite (go_first toks first ps (build_fuel toks) Et Hok); [reflexivity|].
   unfold build_fuel. rewrite Et, !app_length. unfold pairs_toks.
   assert (length ps ≤ length (flat_map (λ ot : string * operand, TOp ot.1 :: op_toks ot.2) ps)).
